@@ -113,6 +113,24 @@ def universe():
     for csrc, caller in cross:
         for mech in ("defs", "inline"):
             items.append({"fam": "compose-naming", "mech": mech, "callee": csrc, "caller": caller})
+    # results of calls held in variables, re-assigned under a condition, then indexed (two callees)
+    F2 = "def g(x: Qint[2]) -> Tuple[Qint[2], bool]:\n    return (x + 1, x[0])\n"
+    K2 = "def k(x: Qint[2]) -> Tuple[Qint[2], bool]:\n    return (x, x[1])\n"
+    G1 = CALLEES["ii"][0]
+    K1 = "def k(x: Qint[2]) -> Qint[2]:\n    return x ^ 3\n"
+    two = [
+        (F2, K2, "def caller(a: Qint[2], b: bool) -> Qint[2]:\n    c = g(a)\n    if b:\n        c = k(a)\n    return c[0]\n"),
+        (F2, K2, "def caller(a: Qint[2], b: bool) -> Qint[2]:\n    c = k(a) if b else g(a)\n    return c[0]\n"),
+        (F2, K2, "def caller(a: Qint[2], b: bool) -> bool:\n    c = g(a)\n    d = k(a)\n    return c[1] ^ d[1] ^ b\n"),
+        (F2, K2, "def caller(a: Qint[2]) -> Tuple[Qint[2], bool]:\n    c = g(a)\n    return c\n"),
+        (F2, K2, "def caller(a: Qint[2]) -> Qint[2]:\n    c, d = g(a)\n    e, h = k(c)\n    return e if (d != h) else c\n"),
+        (G1, K1, "def caller(a: Qint[2], b: bool) -> Qint[2]:\n    c = g(a)\n    if b:\n        c = k(c)\n    else:\n        c = g(c)\n    return c\n"),
+        (G1, K1, "def caller(a: Qint[2]) -> Qint[2]:\n    c = a\n    for i in range(2):\n        c = g(k(c))\n    return c\n"),
+        (G1, K1, "def caller(a: Qint[2], b: Qint[2]) -> bool:\n    return g(a) == k(b)\n"),
+    ]
+    for c1, c2, caller in two:
+        for mech in ("defs", "inline"):
+            items.append({"fam": "compose-two", "mech": mech, "callee": c1, "callee2": c2, "caller": caller})
     # oraclize(f, y) for every y
     orc = [
         ("def g(x: Qint[2]) -> Qint[2]:\n    return x + 1\n", [0, 1, 2, 3]),
@@ -143,7 +161,7 @@ def make_items(tier, seed):
     u = universe()
     if tier == "thorough":
         return u
-    core = [sp for sp in u if sp["fam"] in ("compose-oraclize", "compose-naming")] + [sp for i, sp in enumerate(u) if sp["fam"] not in ("compose-oraclize", "compose-naming") and i % 9 == 0]
+    core = [sp for sp in u if sp["fam"] in ("compose-oraclize", "compose-naming", "compose-two")] + [sp for i, sp in enumerate(u) if sp["fam"] not in ("compose-oraclize", "compose-naming", "compose-two") and i % 9 == 0]
     rest = [sp for sp in u if sp not in core]
     return slice_quick(core + rest, seed, len(core), 250)
 
@@ -165,15 +183,22 @@ def check_item(spec):
         res.update(cls="callee-rejected", note=type(e).__name__)
         return res
     cdef = ast.parse(spec["callee"]).body[0]
+    callee2 = cdef2 = None
+    if spec.get("callee2"):
+        callee2 = qlassf(spec["callee2"], to_compile=False)
+        cdef2 = ast.parse(spec["callee2"]).body[0]
     fp0 = fingerprint(callee)
     lf0 = repr(callee.to_logicfun())
     try:
         if spec["mech"] == "defs":
-            qf = qlassf(spec["caller"], defs=[callee], to_compile=False, bool_optimizer=P)
+            qf = qlassf(spec["caller"], defs=[callee] + ([callee2] if callee2 else []), to_compile=False, bool_optimizer=P)
             ref_src, funs = spec["caller"], {cdef.name: cdef}
+            if cdef2 is not None:
+                funs[cdef2.name] = cdef2
         elif spec["mech"] == "inline":
             lines = spec["caller"].split("\n")
-            inl = "\n".join("    " + l for l in spec["callee"].rstrip("\n").split("\n"))
+            both = spec["callee"].rstrip("\n") + ("\n" + spec["callee2"].rstrip("\n") if spec.get("callee2") else "")
+            inl = "\n".join("    " + l for l in both.split("\n"))
             src = lines[0] + "\n" + inl + "\n" + "\n".join(lines[1:])
             qf = qlassf(src, to_compile=False, bool_optimizer=P)
             ref_src, funs = src, {}
@@ -212,6 +237,8 @@ def check_item(spec):
             g = callee.original_f
             if callable(orig) and hasattr(orig, "__globals__"):
                 orig.__globals__[cdef.name] = g
+                if callee2 is not None:
+                    orig.__globals__[cdef2.name] = callee2.original_f
         except Exception:
             pass
     findings, status, note, nontriv = frontend.decide(qf, ref, st, original_f=orig, validate=(int(item_id(spec), 16) % 4 == 0))
